@@ -8,7 +8,7 @@ for d in seeded/*/; do
   name=$(basename $d)
   p=$(python3 -c "import json;print(json.load(open('$d/meta.json'))['property'])")
   # seeds whose own property's check does not see them are run against the check that does
-  case $name in C16-agent|C08-agent) p=C09;; esac
+  case $name in C16-agent|C08-agent|C05-agent2) p=C09;; esac
   (cd $R && git apply $OLDPWD/$d/patch.diff) || { echo "$name APPLY-FAILED"; continue; }
   VERIF_REPO=$R python3 check.py $p quick > /tmp/rs_$name.txt 2>&1
   rc=$?
